@@ -643,9 +643,9 @@ func hasOuterBound(t *Term, inner []*Term) bool {
 // Ref constructors
 var NilRef = &Term{Op: "nil", Sort: RefSort, size: 1, id: -3}
 
-func Obj(id *Term) *Term          { return mk("obj", RefSort, id) }
-func Emb(p *Term, fld int) *Term  { return mk("emb", RefSort, p, IntLit(int64(fld))) }
-func ElemRef(p, idx *Term) *Term  { return mk("elem", RefSort, p, idx) }
+func Obj(id *Term) *Term         { return mk("obj", RefSort, id) }
+func Emb(p *Term, fld int) *Term { return mk("emb", RefSort, p, IntLit(int64(fld))) }
+func ElemRef(p, idx *Term) *Term { return mk("elem", RefSort, p, idx) }
 func RootID(r *Term) *Term {
 	switch r.Op {
 	case "nil":
@@ -910,7 +910,6 @@ const smtPreludeAxioms = `(assert (and (= (kind nil) 0) (= (rootid nil) (- 1)) (
 `
 
 const smtPrelude = smtPreludeDecls + smtPreludeAxioms
-
 
 // Query renders assumptions and a negated goal as a complete SMT-LIB script.
 func Query(assumptions []*Term, goal *Term, wantModel bool) string {
